@@ -270,6 +270,7 @@ class BMSMap(Map[BMSNoteList, BMSHitList, BMSHoldList, BMSBpmList], BMSMapMeta):
         ]
         hits = [[] for _ in range(MAX_KEYS)]
         holds = [[] for _ in range(MAX_KEYS)]
+        ln_tails = [[] for _ in range(MAX_KEYS)]
         time_sig = {}
 
         # The time_sig channel call does not sustain for more than 1 measure.
@@ -320,26 +321,25 @@ class BMSMap(Map[BMSNoteList, BMSHitList, BMSHoldList, BMSBpmList], BMSMapMeta):
                         column = int(config[channel])
 
                         if pair == self.ln_end_channel:
-                            try:
-                                # Yield LN Head from Hits
-                                prev_hit = hits[column].pop(-1)
-                                holds[column].append(
-                                    Hold(
-                                        hit=prev_hit,
-                                        sample=prev_hit.sample,
-                                        snap=Snap(measure, beat, None),
-                                    )
-                                )
-                            except IndexError:
-                                raise Exception(
-                                    f"Failed to match LN Tail on " f"Column {column}."
-                                )
+                            # Paired after all lines are read, see below
+                            ln_tails[column].append(Snap(measure, beat, None))
                         else:
                             # Else it's a note
                             sample = self.samples.get(pair, b"")
                             hits[column].append(
                                 Hit(sample=sample, snap=Snap(measure, beat, None))
                             )
+        # A LN tail closes the preceding object of its lane in time, whatever
+        # order the lines of the file came in.
+        for column, tails in enumerate(ln_tails):
+            for tail in sorted(tails):
+                heads = [h for h in hits[column] if h.snap < tail]
+                if not heads:
+                    raise Exception(f"Failed to match LN Tail on Column {column}.")
+                head = max(heads, key=lambda h: h.snap)
+                hits[column].remove(head)
+                holds[column].append(Hold(hit=head, sample=head.sample, snap=tail))
+
         #
         # measures = [*time_sig.keys(), -1]
         # for measure0, measure1 in zip(measures[:-1], measures[1:]):
